@@ -54,7 +54,16 @@ inductive Via where
   | same      -- `population(dep, period)`
   | members   -- `group.sum(group.members(dep, period))`
   | project   -- `person.<group>(dep, period)`
+  | membersRole (role : List Nat)     -- `group.sum(group.members(dep, period), role=ROLE)`
+  | nbPersons (role : List Nat)       -- `group.nb_persons(role=ROLE)` (no dependency)
+  | hasRole (g : Nat) (role : List Nat)   -- `person.has_role(ROLE)`, `ROLE` a role of group entity `g` (no dependency)
 deriving DecidableEq, Repr
+
+/-- A role argument is the list of *flattened* role indices a member may hold to satisfy it (a role with
+sub-roles is satisfied by any of them).  The role table used throughout the correspondence: `r0` with
+sub-roles `r0s0, r0s1` (flattened 0, 1), `r1` (2), `r2` with `max = 1` (3); the first flattened role is
+the one `members_role` falls back to when no role was ever assigned. -/
+def stdRoles : List (List Nat) := [[0, 1], [0], [1], [2], [3]]
 
 inductive PT where
   | same | lastMonth
@@ -113,6 +122,7 @@ structure PopObj where
   ids : List Nat
   members : Option Id
   membersEntityId : List Nat
+  membersRole : Option (List Nat)    -- `_members_role`: `None`, or the flattened role of each person
 deriving DecidableEq, Repr
 
 structure TracerObj where
@@ -539,6 +549,20 @@ def groupSum (membersEntityId : List Nat) (a : Vec) (count : Nat) : Vec :=
   let n := max count ((membersEntityId.foldl max 0) + (if membersEntityId.isEmpty then 0 else 1))
   (List.range n).map (fun g => ((membersEntityId.zip a).filter (fun x => x.1 = g)).foldl (fun s x => s + x.2) 0)
 
+/-- `GroupPopulation.members_role`: the assigned roles, else everybody holds the first flattened role
+(the getter also caches that default in `_members_role`; the cached value is the value it would compute
+again, so the assignment is not observable and is not modelled as a write) -/
+def PopObj.roles (po : PopObj) : List Nat :=
+  po.membersRole.getD (List.replicate po.membersEntityId.length 0)
+
+/-- `members_role == role`, or the disjunction over the sub-roles -/
+def roleBits (roles : List Nat) (role : List Nat) : List Bool := roles.map (fun r => role.contains r)
+
+/-- `numpy.bincount(members_entity_id[filter], weights=a[filter], minlength=count)` -/
+def groupSumRole (membersEntityId : List Nat) (bits : List Bool) (a : Vec) (count : Nat) : Vec :=
+  let kept := ((membersEntityId.zip a).zip bits).filter (fun x => x.2)
+  groupSum (kept.map (fun x => x.1.1)) (kept.map (fun x => x.1.2)) count
+
 def transformPeriod (pt : PT) (p : Period) : HM Period :=
   match pt with
   | .same => pure p
@@ -573,6 +597,29 @@ def evalTerm (sys : Sys) (rec : Id → Var → Period → HM Vec) (pid : Id) (en
     let a ← rec go.sim t.dep p'
     if a.length ≠ go.count then fail .value else
     ofOption .value (go.membersEntityId.mapM (fun g => a[g]?))
+  | .membersRole role => do
+    -- `population.sum(population.members(dep, p'), role=ROLE)`; the filter is
+    -- `self.members.has_role(ROLE)`: `members.simulation.get_population(ROLE.entity.plural).members_role`
+    let mid ← ofOption .value po.members
+    let mo ← rdPop mid
+    if ddecl.entity ≠ mo.entity then fail .value else do
+    let a ← rec mo.sim t.dep p'
+    if a.length ≠ mo.count then fail .value else do
+    let so ← rdSim mo.sim
+    let gid ← ofOption .value (alGet so.pops ent)
+    let go ← rdPop gid
+    if go.roles.length ≠ a.length then fail .value else
+    pure (groupSumRole po.membersEntityId (roleBits go.roles role) a po.count)
+  | .nbPersons role =>
+    -- `population.nb_persons(role=ROLE)`: `self.sum(self.members_role == ROLE)`
+    if po.roles.length ≠ po.membersEntityId.length then fail .value else
+    pure (groupSum po.membersEntityId ((roleBits po.roles role).map (fun b => if b then 1 else 0)) po.count)
+  | .hasRole g role => do
+    -- `person.has_role(ROLE)`: `self.simulation.get_population(ROLE.entity.plural).members_role == ROLE`
+    let so ← rdSim po.sim
+    let gid ← ofOption .value (alGet so.pops g)
+    let go ← rdPop gid
+    pure ((roleBits go.roles role).map (fun b => if b then 1 else 0))
 
 def evalTerms (sys : Sys) (rec : Id → Var → Period → HM Vec) (pid : Id) (ent : Nat) (p : Period) :
     List Term → Vec → HM Vec
@@ -692,6 +739,8 @@ structure PopObs where
   count : Nat
   ids : List Nat
   membersEntityId : List Nat
+  roles : List Nat                     -- `members_role` (flattened role of each person)
+  roleCounts : List (List Int)         -- `nb_persons(role)` for every role of `stdRoles`
   holders : List HolderObs
 deriving DecidableEq, Repr
 
@@ -715,7 +764,10 @@ def observePop (x persons : Id) (e : Nat × Id) : HM PopObs := do
   let hs ← mapMH (observeHolder x e.2) po.holders
   pure ⟨po.entity, decide (po.sim = x),
     (match po.members with | none => true | some m => decide (m = persons)),
-    po.count, po.ids, po.membersEntityId, hs⟩
+    po.count, po.ids, po.membersEntityId, po.roles,
+    stdRoles.map (fun role =>
+      groupSum po.membersEntityId ((roleBits po.roles role).map (fun b => if b then 1 else 0)) po.count),
+    hs⟩
 
 def observe (x : Id) : HM Obs := do
   let so ← rdSim x
@@ -749,11 +801,28 @@ def readKnown (sys : Sys) (x : Id) (v : Var) : HM (List Period) := do
   | none => pure []
 
 /-- entity structure of one population: count, ids, memberships, which variables have a holder -/
-def readStructure (x : Id) (ent : Nat) : HM (Nat × List Nat × List Nat × List Var) := do
+def readStructure (x : Id) (ent : Nat) : HM (Nat × List Nat × List Nat × List Nat × List Var) := do
   let so ← rdSim x
   let pid ← ofOption .value (alGet so.pops ent)
   let po ← rdPop pid
-  pure (po.count, po.ids, po.membersEntityId, po.holders.map (fun e => e.1))
+  pure (po.count, po.ids, po.membersEntityId, po.roles, po.holders.map (fun e => e.1))
+
+/-- `simulation.populations[ent].nb_persons(role=ROLE)` -/
+def roleCount (x : Id) (ent : Nat) (role : List Nat) : HM Vec := do
+  let so ← rdSim x
+  let pid ← ofOption .value (alGet so.pops ent)
+  let po ← rdPop pid
+  pure (groupSum po.membersEntityId ((roleBits po.roles role).map (fun b => if b then 1 else 0)) po.count)
+
+/-- `simulation.persons.has_role(ROLE)` for a role of the group entity `ent`: the person population goes
+back to *its* simulation to find the group population -/
+def personsHaveRole (x : Id) (ent : Nat) (role : List Nat) : HM (List Bool) := do
+  let so ← rdSim x
+  let po ← rdPop so.persons
+  let so2 ← rdSim po.sim
+  let gid ← ofOption .value (alGet so2.pops ent)
+  let go ← rdPop gid
+  pure (roleBits go.roles role)
 
 /-! ## clone (repaired code) -/
 
@@ -783,7 +852,8 @@ def cloneMembers (newSim : Id) : Option Id → HM (Option Id)
 
 /-- `Population.clone(simulation)` / `GroupPopulation.clone(simulation)`: a new population bound
 to `simulation`, holders cloned for the *new* population, `members = simulation.persons`;
-`count`, `ids`, the membership arrays by reference (values here) -/
+`count`, `ids`, `_members_entity_id`, `_members_role` (and the derived `_members_position`,
+`_ordered_members_map`, functions of `_members_entity_id` alone, not modelled) by reference — values here -/
 def clonePop (rc : Nat) (newSim : Id) (pid : Id) : HM Id := do
   let po ← rdPop pid
   let members ← cloneMembers newSim po.members
@@ -823,6 +893,7 @@ structure GroupSpec where
   entity : Nat
   count : Nat
   membersEntityId : List Nat
+  roles : Option (List Nat)      -- `members_role` assigned at construction, or never
 deriving Repr
 
 structure SimSpec where
@@ -834,7 +905,7 @@ deriving Repr
 def buildGroups (r : Nat) (s persons : Id) : List GroupSpec → HM (List (Nat × Id))
   | [] => pure []
   | g :: rest => do
-    let pid ← new r (.pop ⟨g.entity, s, [], g.count, List.range g.count, some persons, g.membersEntityId⟩)
+    let pid ← new r (.pop ⟨g.entity, s, [], g.count, List.range g.count, some persons, g.membersEntityId, g.roles⟩)
     let rest' ← buildGroups r s persons rest
     pure ((g.entity, pid) :: rest')
 
@@ -843,7 +914,7 @@ def build (spec : SimSpec) : HM Id := do
   let r ← newRegion
   let self : Id := ⟨r, 0⟩
   let s ← new r (.sim ⟨self, [], self, self, false, spec.memConfig, none⟩)
-  let persons ← new r (.pop ⟨0, s, [], spec.persons, List.range spec.persons, none, []⟩)
+  let persons ← new r (.pop ⟨0, s, [], spec.persons, List.range spec.persons, none, [], none⟩)
   let groups ← buildGroups r s persons spec.groups
   let tr ← new r (.tracer ⟨false, [], []⟩)
   let inv ← new r (.inval [])
